@@ -363,7 +363,7 @@ class Canon:
             return self.stmt(loc(ast.If(test=e.test, body=[a], orelse=[b]), st), outer)
         # S7: `_, x = pair()` -> `x = pair()[1]` for the library calls that return a pair
         if on("S7") and isinstance(st, ast.Assign) and len(st.targets) == 1 and isinstance(st.targets[0], ast.Tuple) and len(st.targets[0].elts) == 2 \
-                and isinstance(st.value, ast.Call) and (pysrc_dotted(st.value.func) or "") in ("os.path.splitext", "os.path.split", "divmod"):
+                and isinstance(st.value, ast.Call) and (pysrc_dotted(st.value.func) or "") in ("os.path.splitext", "os.path.split", "divmod", "render_quoted_form"):
             a, b = st.targets[0].elts
             keep = None
             if isinstance(a, ast.Name) and a.id == "_" and isinstance(b, ast.Name):
@@ -405,6 +405,7 @@ def canonical(tree, rel=None):
     """Return the canonical form of a module tree (the argument is consumed)."""
     if "ALL" in OFF:
         return tree
+    tree = propagate_aliases(tree)
     if rel is not None:
         tree = inline_constants(tree, rel)
         tree = inline_helpers(tree, rel)
@@ -794,4 +795,73 @@ def inline_constants(tree, rel):
             if shadow & {k for k, v in cands.items() if v[1] is None}:
                 continue
             n.body = [Sub().visit(s) for s in n.body]
+    return tree
+
+
+# ---------------------------------------------------------------------------------------------------------------
+# S9: local aliases of attribute chains
+# ---------------------------------------------------------------------------------------------------------------
+#
+# `x = self.a.b` at the top level of a function, x bound exactly once, the chain's root never rebound and the chain (or
+# a prefix of it) never stored to in the function: x is replaced by the chain.  (Hoisting a repeated attribute read into a
+# local, or the reverse, is a clean-up; the rules see the same text either way.)
+
+def propagate_aliases(tree):
+    if "S9" in OFF:
+        return tree
+    for f in [n for n in ast.walk(tree) if isinstance(n, (ast.FunctionDef, ast.AsyncFunctionDef))]:
+        stores = {}
+        attr_stores = set()
+        params = {a.arg for a in ast.walk(f.args) if isinstance(a, ast.arg)}
+        decl = set()
+        for n in ast.walk(f):
+            if isinstance(n, ast.Name) and isinstance(n.ctx, (ast.Store, ast.Del)):
+                stores[n.id] = stores.get(n.id, 0) + 1
+            elif isinstance(n, ast.Attribute) and isinstance(n.ctx, (ast.Store, ast.Del)):
+                d = pysrc_dotted(n)
+                if d:
+                    attr_stores.add(d)
+            elif isinstance(n, (ast.Global, ast.Nonlocal)):
+                decl |= set(n.names)
+            elif isinstance(n, ast.arg) and n is not None:
+                pass
+        nested_params = {a.arg for g in ast.walk(f) if g is not f and isinstance(g, (ast.FunctionDef, ast.AsyncFunctionDef, ast.Lambda)) for a in ast.walk(g.args) if isinstance(a, ast.arg)}
+        todo = []
+        for st in f.body:
+            if isinstance(st, ast.Assign) and len(st.targets) == 1 and isinstance(st.targets[0], ast.Name) and isinstance(st.value, ast.Attribute):
+                x = st.targets[0].id
+                d = pysrc_dotted(st.value)
+                if not d or stores.get(x) != 1 or x in params or x in decl or x in nested_params:
+                    continue
+                root = d.split(".")[0]
+                if stores.get(root) or root in decl:
+                    continue
+                if any(d == a or d.startswith(a + ".") or a.startswith(d + ".") for a in attr_stores):
+                    continue
+                # the object must not be handed to / called on anywhere in the function: a call could change the attribute
+                # between the binding and the use (`start = self.pos` is a snapshot, not an alias)
+                touched = False
+                for c in ast.walk(f):
+                    if isinstance(c, ast.Call):
+                        recv = c.func.value if isinstance(c.func, ast.Attribute) else None
+                        if recv is not None and (pysrc_dotted(recv) or "").split(".")[0] == root:
+                            touched = True
+                        for a in list(c.args) + [k.value for k in c.keywords]:
+                            if any(isinstance(n, ast.Name) and n.id == root for n in ast.walk(a)) and not (isinstance(a, ast.Name) and a.id == x):
+                                touched = True
+                if touched:
+                    continue
+                todo.append((st, x))
+        if not todo:
+            continue
+        for st, x in todo:
+            val = st.value
+
+            class Sub(ast.NodeTransformer):
+                def visit_Name(self, node):
+                    if node.id == x and isinstance(node.ctx, ast.Load):
+                        return loc(copy.deepcopy(val), node)
+                    return node
+
+            f.body = [Sub().visit(s2) for s2 in f.body if s2 is not st] or [ast.Pass()]
     return tree
